@@ -105,9 +105,4 @@ def replay (j : Json) : Except String Json := do
                ("pushed", jnat ((s.seen.length) + (s.hq.filterMap id).length + (s.pq.filterMap id).length +
                   (s.hs.filter fun h => match h with | .holding _ => true | _ => false).length))]
 
-def handle (op : String) (j : Json) : Except String Json :=
-  match op with
-  | "c03.replay" => replay j
-  | _ => throw s!"unknown op {op}"
-
 end Driver.C03
